@@ -11,6 +11,7 @@ import (
 	"bytes"
 	"encoding/hex"
 	"fmt"
+	"time"
 
 	"github.com/tonkeeper/tongo/boc"
 	"github.com/tonkeeper/tongo/tlb"
@@ -693,4 +694,253 @@ func c02BuiltOracle(c *Ctx, in sx.V, dag []Node, paths [][]int, emit bool) {
 		c.Fail("c02.built", in, "builder-mask", "the body parsed from the proof and the in-memory body have different masks")
 	}
 	_ = bytes.Equal
+}
+
+// ------------------------------------------ parsed from any bag-of-cells variant
+
+func init() {
+	execs["c02.parsed"] = execC02Parsed
+	execs["c02.conc"] = execC02Conc
+}
+
+func parsedRow(q *boc.Cell) sx.V {
+	return sx.L(levelInfo(q, 0), levelInfo(q, 1), levelInfo(q, 2), levelInfo(q, 3),
+		sx.Nat(q.Level()), sx.B(q.IsExotic()), sx.N(uint64(q.CellType())))
+}
+
+// c02.parsed: bytes -> 'err | one row per root of the bag
+func execC02Parsed(in sx.V) sx.V {
+	roots, err := boc.DeserializeBoc(in.Bytes)
+	if err != nil {
+		return sx.A("err")
+	}
+	var rows []sx.V
+	for _, q := range roots {
+		rows = append(rows, parsedRow(q))
+	}
+	return sx.L(rows...)
+}
+
+func nonContiguous(m uint8) bool { return m == 2 || m == 4 || m == 5 || m == 6 }
+
+// c02ParsedOrigin: the reachable part of the DAG is written by the reference
+// serialiser in a random header variant (three magics, index, CRC, cache bits,
+// over-wide fields, stored hashes for every cell) with EVERY cell as a root;
+// each parsed cell must have the type, Level() and (hash, depth) at levels
+// 0..3 of the cell built in memory (independent expectation), and — when
+// emit — of the extracted model of the parser + hashing.
+func c02ParsedOrigin(c *Ctx, in sx.V, dag []Node, root int, emit bool) {
+	defer func() {
+		if r := recover(); r != nil {
+			c.Fail("c02.hashes", in, "origin-parsed-panic", fmt.Sprintf("parsing / hashing the reference-serialised bag panicked: %v", r))
+		}
+	}()
+	r := c.R
+	sub, _ := reachable(dag, root)
+	built, err := buildGo(sub)
+	if err != nil {
+		return
+	}
+	hv := randVariant(r)
+	if r.Chance(60) {
+		hv.WithHashes = true
+	}
+	roots := make([]int, len(sub))
+	for i := range roots {
+		roots[i] = i
+	}
+	if r.Chance(30) { // roots in another order
+		for i := len(roots) - 1; i > 0; i-- {
+			j := r.Intn(i + 1)
+			roots[i], roots[j] = roots[j], roots[i]
+		}
+	}
+	b := refSerialize(sub, roots, hv, r)
+	nc := false
+	for _, nd := range sub {
+		nc = nc || nonContiguous(nd.Mask)
+	}
+	bin := sx.Bytes(b)
+	class := fmt.Sprintf("parsed|hashes-%v|magic%d|noncontig-%v", hv.WithHashes, hv.Magic, nc)
+	if emit {
+		c.Emit("c02.parsed", bin, class)
+	} else {
+		c.Note("c02.parsed", class, bin)
+	}
+	parsed, err := boc.DeserializeBoc(b)
+	if err != nil || len(parsed) != len(roots) {
+		c.Fail("c02.parsed", bin, "origin-parse", fmt.Sprintf("a valid bag of cells (variant %+v, every cell a root) is rejected: %v", hv, err))
+		return
+	}
+	for k, q := range parsed {
+		i := roots[k]
+		wantTy := 0
+		if sub[i].Special {
+			wantTy = nodeType(sub[i])
+		}
+		if int(q.CellType()) != wantTy || q.IsExotic() != (wantTy != 0) {
+			c.Fail("c02.parsed", bin, "origin-parsed", fmt.Sprintf("cell %d parsed from the bag (variant %+v) has type %d exotic=%v, written as type %d special=%v", i, hv, q.CellType(), q.IsExotic(), nodeType(sub[i]), sub[i].Special))
+			return
+		}
+		if q.Level() != bitLen(uint32(sub[i].Mask)) {
+			c.Fail("c02.parsed", bin, "origin-parsed", fmt.Sprintf("cell %d parsed from the bag (variant %+v) has Level() %d, mask written %d", i, hv, q.Level(), sub[i].Mask))
+			return
+		}
+		for l := 0; l <= 3; l++ {
+			a, w := levelInfo(q, l).String(), levelInfo(built[i], l).String()
+			if a != w {
+				c.Fail("c02.parsed", bin, "origin-parsed", fmt.Sprintf("cell %d (mask %d) parsed from the bag (variant %+v): (hash depth) at level %d is %s, the cell built in memory has %s", i, sub[i].Mask, hv, l, trunc(a, 90), trunc(w, 90)))
+				return
+			}
+		}
+	}
+}
+
+// exotic DAGs in which nested Merkle cells put the non-contiguous masks 2, 4,
+// 5, 6 on Merkle, ordinary and pruned cells alike: a spine of Merkle
+// proofs/updates and ordinary cells over pruned branches of high masks
+func nestedMerkleDag(r *prng.R) []Node {
+	depth := 2 + r.Intn(5)
+	var dag []Node
+	for i := 0; i < depth; i++ {
+		switch r.Intn(3) {
+		case 0:
+			d := r.Intn(900)
+			data := append([]byte{3}, r.Bytes(32)...)
+			data = append(data, byte(d>>8), byte(d))
+			dag = append(dag, Node{Special: true, Bits: byteBits(data...), Refs: []int{i + 1}})
+		case 1:
+			data := append([]byte{4}, r.Bytes(68)...)
+			dag = append(dag, Node{Special: true, Bits: byteBits(data...), Refs: []int{i + 1, i + 1}})
+		default:
+			dag = append(dag, Node{Bits: randBits(r, r.Intn(40)), Refs: []int{i + 1}})
+		}
+	}
+	// bottom: an ordinary cell over 1..3 pruned branches of masks 1..7
+	bottom := Node{Bits: randBits(r, r.Intn(30))}
+	k := 1 + r.Intn(3)
+	for j := 0; j < k; j++ {
+		bottom.Refs = append(bottom.Refs, depth+1+j)
+	}
+	dag = append(dag, bottom)
+	for j := 0; j < k; j++ {
+		m := uint8(1 + r.Intn(7))
+		if r.Chance(50) {
+			m = []uint8{2, 4, 5, 6}[r.Intn(4)]
+		}
+		pc := popcount8(m)
+		data := []byte{1, m}
+		data = append(data, r.Bytes(32*pc)...)
+		for x := 0; x < pc; x++ {
+			d := r.Intn(900)
+			data = append(data, byte(d>>8), byte(d))
+		}
+		dag = append(dag, Node{Special: true, Mask: m, Bits: byteBits(data...)})
+	}
+	// a second branch somewhere on the spine
+	if r.Chance(50) {
+		at := r.Intn(depth)
+		if !dag[at].Special && len(dag[at].Refs) < 4 {
+			dag[at].Refs = append(dag[at].Refs, depth+1+r.Intn(k))
+		}
+	}
+	ruleMasks(dag)
+	return dag
+}
+
+// --------------------------------------------------------------- concurrency
+
+// c02.conc: (k rounds dag ...) -> 'ok | ('differs goroutine round cell):
+// k goroutines, each with its OWN cells (built from dag g mod #dags) and its
+// own boc.Hasher, hash all their cells `rounds` times through Cell.Hash and
+// Hasher.Hash while the others do the same; every hash must be the one computed
+// sequentially before.  Nothing is shared between the goroutines.
+func execC02Conc(in sx.V) sx.V {
+	k := in.List[0].I()
+	rounds := in.List[1].I()
+	var dags [][]Node
+	for _, d := range in.List[2:] {
+		dags = append(dags, dagFromSx(d))
+	}
+	type job struct {
+		cells []*boc.Cell
+		want  []string
+	}
+	jobs := make([]job, k)
+	for g := 0; g < k; g++ {
+		cells, err := buildGo(dags[g%len(dags)])
+		if err != nil {
+			return sx.A("err")
+		}
+		jobs[g].cells = cells
+		for _, q := range cells {
+			h, err := q.Hash()
+			if err != nil {
+				h = []byte("err")
+			}
+			jobs[g].want = append(jobs[g].want, string(h))
+		}
+	}
+	res := make(chan sx.V, k)
+	start := make(chan struct{})
+	for g := 0; g < k; g++ {
+		go func(g int) {
+			out := sx.A("ok")
+			defer func() {
+				if r := recover(); r != nil {
+					out = sx.L(sx.A("panics"), sx.Nat(g))
+				}
+				res <- out
+			}()
+			<-start
+			for rd := 0; rd < rounds; rd++ {
+				hs := boc.NewHasher()
+				for i, q := range jobs[g].cells {
+					var h []byte
+					var err error
+					if (rd+i)%2 == 0 {
+						h, err = q.Hash()
+					} else {
+						h, err = hs.Hash(q)
+					}
+					if err != nil {
+						h = []byte("err")
+					}
+					if string(h) != jobs[g].want[i] {
+						out = sx.L(sx.A("differs"), sx.Nat(g), sx.Nat(rd), sx.Nat(i))
+						return
+					}
+				}
+			}
+		}(g)
+	}
+	close(start)
+	out := sx.A("ok")
+	for g := 0; g < k; g++ {
+		if v := <-res; !v.IsA("ok") && out.IsA("ok") {
+			out = v
+		}
+	}
+	return out
+}
+
+func genC02Conc(c *Ctx) {
+	r := c.R
+	for i := 0; i < c.Scale(6, 40); i++ {
+		k := []int{2, 4, 8, 16}[r.Intn(4)]
+		args := []sx.V{sx.Nat(k), sx.Nat(c.Scale(150, 400))}
+		for j := 0; j < 1+r.Intn(3); j++ {
+			if r.Bool() {
+				args = append(args, dagSx(exoticDag(r, 8+r.Intn(20))))
+			} else {
+				args = append(args, dagSx(randDag(r, 8+r.Intn(20))))
+			}
+		}
+		in := sx.L(args...)
+		out := guardedExec("c02.conc", in, 20*time.Second)
+		c.Note("c02.conc", fmt.Sprintf("goroutines%d", k), in)
+		if !out.IsA("ok") {
+			c.Fail("c02.conc", in, "conc-hash", fmt.Sprintf("%d goroutines hashing unrelated cells (Cell.Hash, one Hasher each): %s; sequentially every hash is right", k, out.String()))
+		}
+	}
 }
